@@ -6,7 +6,7 @@ from . import modelrun
 COQ = os.path.join(VERIF, "coq")
 EVID = os.path.join(VERIF, "evidence")
 REPLAY = os.path.join(EVID, "replay")
-KNOWN = os.path.join(VERIF, "known_findings.json")
+KNOWN = os.path.join(VERIF, "known_findings")
 
 FORBIDDEN = re.compile(
     r"\b(Admitted|admit|Axiom|Axioms|Parameter|Parameters|Conjecture|Conjectures|give_up|"
@@ -39,41 +39,6 @@ def strip_comments(src):
     return "".join(out)
 
 
-def gate_scan(paths=None):
-    """Return a list of 'file: problem' strings for forbidden constructs."""
-    problems = []
-    if paths is None:
-        paths = [p for p in glob.glob(os.path.join(COQ, "**", "*.v"), recursive=True)]
-    for p in sorted(paths):
-        src = strip_comments(open(p).read())
-        src = re.sub(r'"[^"]*"', '""', src)
-        m = FORBIDDEN.search(src)
-        if m:
-            problems.append("%s: forbidden token %r" % (os.path.relpath(p, COQ), m.group(0)))
-        depth = 0
-        for sent in re.finditer(r"\b(Section|End|Module\s+Type|Module|Variable|Variables|Hypothesis|Hypotheses|Context)\b\s*([\w.]*)", src):
-            kw = sent.group(1)
-            if kw == "Section":
-                depth += 1
-            elif kw.startswith("Module"):
-                depth += 0
-            elif kw == "End":
-                # End closes sections or modules; we only count names opened as sections
-                pass
-            elif depth == 0:
-                problems.append("%s: %s outside a section" % (os.path.relpath(p, COQ), kw))
-        # precise section tracking
-        stack = []
-        for sent in re.finditer(r"\b(Section|Module\s+Type|Module|End)\s+(\w+)", src):
-            kw, name = sent.group(1), sent.group(2)
-            if kw == "End":
-                if stack and stack[-1][1] == name:
-                    stack.pop()
-            else:
-                stack.append((kw, name))
-    return problems
-
-
 def gate_scan_sections(path):
     """Variables/Hypotheses must sit inside a Section: precise scan with a name stack."""
     src = strip_comments(open(path).read())
@@ -94,9 +59,30 @@ def gate_scan_sections(path):
     return bad
 
 
-def full_gate():
+def closure(pid_file):
+    """Transitive `From YV Require ...` closure of a .v file (paths)."""
+    seen, todo = [], [pid_file]
+    while todo:
+        p = todo.pop()
+        if p in seen or not os.path.exists(p):
+            continue
+        seen.append(p)
+        src = strip_comments(open(p).read())
+        for m in re.finditer(r"From\s+YV\s+Require\s+(?:Import\s+|Export\s+)?([\w.\s]+?)\.(?:\s|$)", src):
+            for mod in m.group(1).split():
+                todo.append(os.path.join(COQ, *mod.split(".")) + ".v")
+        for m in re.finditer(r"(?<!YV\s)Require\s+(?:Import\s+|Export\s+)?([\w.\s]+?)\.(?:\s|$)", src):
+            for mod in m.group(1).split():
+                if mod.startswith("YV."):
+                    todo.append(os.path.join(COQ, *mod.split(".")[1:]) + ".v")
+    return seen
+
+
+def full_gate(files=None):
     probs = []
-    for p in sorted(glob.glob(os.path.join(COQ, "**", "*.v"), recursive=True)):
+    if files is None:
+        files = glob.glob(os.path.join(COQ, "**", "*.v"), recursive=True)
+    for p in sorted(files):
         src = strip_comments(open(p).read())
         src = re.sub(r'"[^"]*"', '""', src)
         m = FORBIDDEN.search(src)
@@ -171,8 +157,9 @@ class Ctx(object):
         self.notes = []
         os.makedirs(REPLAY, exist_ok=True)
         self.known = []
-        if os.path.exists(KNOWN):
-            self.known = [k for k in json.load(open(KNOWN)).get("findings", [])
+        kf = os.path.join(KNOWN, pid + ".json")
+        if os.path.exists(kf):
+            self.known = [k for k in json.load(open(kf)).get("findings", [])
                           if k.get("property") == pid]
 
     # ---------- Coq ----------
@@ -180,7 +167,8 @@ class Ctx(object):
         """Re-check Properties/<pid>.v (and whatever it depends on) with coqc."""
         pfile = os.path.join(COQ, "Properties", self.pid + ".v")
         self.theorems = re.findall(r"^Theorem\s+(\w+)", strip_comments(open(pfile).read()), re.M)
-        probs = full_gate()
+        self.closure = closure(pfile)
+        probs = full_gate(self.closure)
         if probs:
             self.proof_ok = False
             self.proof_log = "gate: " + "; ".join(probs)
@@ -223,6 +211,9 @@ class Ctx(object):
 
     def build_model(self, topic):
         try:
+            probs = full_gate(closure(os.path.join(COQ, topic, topic + "Run.v")))
+            if probs:
+                raise modelrun.BuildError("gate: " + "; ".join(probs))
             with CoqLock():
                 regen_coqproject()
                 p = subprocess.run(["make", "-j8", "%s/%sRun.vo" % (topic, topic)], cwd=COQ,
